@@ -39,6 +39,7 @@ FIXED = [
  ("C20", "fix: GetTable and ModifyColumnFamilies handed out", "data race: the *Table returned by GetTable/ModifyColumnFamilies is the live definition, serialized after the lock is released while a concurrent ModifyColumnFamilies edits its families map (race supplement: ModifyColumnFamilies <-> proto.Marshal of the response)"),
  ("C20", "fix: GenerateConsistencyToken and CheckConsistency", "data race: GenerateConsistencyToken/CheckConsistency read server.tables without the server lock while CreateTable/DeleteTable write it (race supplement: CreateTable <-> GenerateConsistencyToken)"),
  ("C20", "fix: requests for one resumable upload id", "data race: two PUTs naming one resumable upload id truncate and append the shared buffer concurrently (race supplement: handleGcsNewObjectResume <-> handleGcsNewObjectResume)"),
+ ("C07", "fix: copy and compose read their source", "file store: a copy of an object that is being written at that moment (content file there, sidecar not yet) succeeds and stores the new bytes with made-up metadata; found by copies OF the contended object in the C07 workload (replay in findings/)"),
  ("C20", "fix: a GC rule with a negative", "CreateTable/ModifyColumnFamilies accept a GC rule with max_num_versions = -3; the next GC pass over a populated column panics (slice bounds out of range [:-3]) on the background goroutine"),
  ("C20", "fix: the CreateTable response shared", "data race: the CreateTable response shares the families map with the stored definition and is serialized after the handler returned, while ModifyColumnFamilies on the new table edits it (race supplement: ModifyColumnFamilies <-> proto.Marshal in CreateTable's response)"),
  ("C20", "fix: a metadata PATCH with the body", "PATCH of an object's metadata with the JSON body null -> nil dereference"),
